@@ -128,6 +128,8 @@ known("C04", "bare-star-directly-before-kwargs-accepted", "`def f(*, **k)` / `la
 known("C04", "error-inside-fstring-field-located-at-field-start", "a rule violation inside an f-string replacement field is reported (wrapped in FStringError(InvalidExpression(..))) at the start of the field's expression instead of inside the offending construct", "f'{(lambda x, x: x)(1)}'")
 known("C04", "lexical-error-on-soft-keyword-line-reported-as-unexpected-name", "a lexical error on a logical line that starts with match/case/type: the soft-keyword look-ahead stops at the error, the keyword is demoted to a name and the parser reports an unexpected token earlier on the line instead of the lexical error", "match x:\n    case 1 $: pass")
 
+known("C03", "string-error-offset-shifted-left-per-crlf-inside-literal", "errors raised while decoding a (triple-quoted) literal that contains CRLF are located one byte too far left per preceding CRLF (the string parser works on the value with CRLF folded to LF); the offset can fall inside a multi-byte character", "rb'''a\r\n\U0001d11e'''")
+
 # further per-property tables are appended by findings_*.py fragments (one per check family)
 if __name__ == "__main__":
     import os
